@@ -240,7 +240,7 @@ META["C19"] = {
 
 META["C14"] = {
     "title": "Conversions and completion status report the real outcome and never hang",
-    "rule": "cases = (conversion in to_future / to_stream / complete_status over Subject or SubjectThreads, script of 0..n items (quick n=4, thorough n=6) then complete / error / neither, optionally followed by a post-terminal item, with 0-2 manual polls placed before, between and after the events, polled with a counting waker). After a terminal the future/stream is polled at most twice more per element and must be ready; a poll that returned Pending before the terminal must have been woken by it; complete_status flags are compared with what the probe saw after every step and wait_for_end is called once the source has terminated. Plus the gate scenarios: a real waiter thread in wait_for_end is stopped at the hooked point of StatusFuture::poll while the producer thread runs complete()/error() (placements: terminal before the wait, inside the hooked window, after the waiter's first poll) x {complete, error}. Plus free-running two-thread races (quick 3000, thorough 300000): a real waiter thread blocks in block_on(to_future) / block_on(to_stream.collect) / wait_for_end on a SubjectThreads while the producing thread emits 0-3 items and a terminal with seeded yields, sleeps and spins (and the hook-point jitter on half of them); the waiter must return (bounded progress: within 20 s of the producer's terminal call having returned) with exactly the modelled outcome. Non-trivial: the source terminated while a poll had returned Pending, or terminated by error; distinct = hash(case).",
+    "rule": "cases = (conversion in to_future / to_stream / complete_status over Subject or SubjectThreads, script of 0..n items (quick n=4, thorough n=6) then complete / error / neither, optionally followed by a post-terminal item, with 0-2 manual polls placed before, between and after the events, polled with a counting waker; optionally another subscriber of the same subject ahead of the conversion, already unsubscribed or still open). After a terminal the future/stream is polled at most twice more per element and must be ready; a poll that returned Pending before the terminal must have been woken by it; complete_status flags are compared after every step with what the probe saw and with the source calls that have returned and wait_for_end is called once the source has terminated. Plus the gate scenarios: a real waiter thread in wait_for_end is stopped at the hooked point of StatusFuture::poll while the producer thread runs complete()/error() (placements: terminal before the wait, inside the hooked window, after the waiter's first poll) x {complete, error}. Plus free-running two-thread races (quick 3000, thorough 300000): a real waiter thread blocks in block_on(to_future) / block_on(to_stream.collect) / a busy poll_next loop on to_stream / wait_for_end on a SubjectThreads while the producing thread emits 0-3 items and a terminal with seeded yields, sleeps and spins (and the hook-point jitter on half of them); the waiter must return (bounded progress: within 20 s of the producer's terminal call having returned) with exactly the modelled outcome. Non-trivial: the source terminated while a poll had returned Pending, or terminated by error; distinct = hash(case).",
     "assumptions": COMMON_ASSUME + [
         "for 'items then error' to_future() may resolve to the error or to MultipleValues (the documentation fixes only the pure cases); it must resolve",
         "'never hang' is read as bounded progress: ready within two polls after termination (logical); in the gate scenarios the waiter gets 20 s, and only after the logical witness (waiter reached the hooked point, producer's terminal call returned) exists; no witness + timeout = inconclusive",
